@@ -185,7 +185,7 @@ distinct = distinct (size value, pair class) + type codes + layout headers; orac
     let mut rng = Rng::derive(ctx.seed, 10, 0);
 
     // ---- layout: distinct field values at their offsets -------------------------------------
-    let n_layout = ctx.tier.pick(20_000, 400_000);
+    let n_layout = ctx.tier.pick(20_000, 6_000_000);
     for i in 0..n_layout {
         let mut d = crate::enc::Distinct::new(&mut rng);
         let h = MsgHeader {
@@ -338,7 +338,7 @@ distinct = distinct (size value, pair class) + type codes + layout headers; orac
         }
     }
     // sampled 2^32 count/number space on the variable-length and boundary sizes
-    let n_rand = ctx.tier.pick(200_000, 4_000_000);
+    let n_rand = ctx.tier.pick(200_000, 40_000_000);
     for i in 0..n_rand {
         let size = *rng.pick(&[0xFFFFu16, 0xFFFF, 0xFFFE, 0x8000, 0x7FFF, 0, 1216]);
         let c = rng.u16();
